@@ -90,8 +90,15 @@ def task_month(arg):
         tag = '@m%d.p%d' % (m, i)
         if p.kind == 'exc':
             if not isinstance(p.exc, ValueError):
-                r, mo, _ = core.check(ctx, p, z3.BoolVal(True), timeout_ms=120000)
-                t.cand('C01.exception', inp(mo) if mo else {'y': 2000, 'm': m, 'd': 1}, 'unexpected %r' % (p.exc,))
+                # e.g. UnboundLocalError on the branch `e >= 16` of get_date: is that branch reachable at all?
+                r, mo, secs = core.check(ctx, p, z3.BoolVal(True), timeout_ms=600000)
+                if r == 'unsat':
+                    t.ob('non-ValueError exception path is unreachable' + tag, 'unsat', secs, bound)
+                    continue
+                if r != 'sat':
+                    t.ob('non-ValueError exception path is unreachable' + tag, 'unknown', secs, bound)
+                    continue
+                t.cand('C01.exception', inp(mo), 'unexpected %r' % (p.exc,))
                 t.ob('exception-class' + tag, 'sat', 0, bound)
                 continue
             t.reach += 1
@@ -226,7 +233,8 @@ sys.exit(0)
             for sp in spellings(m)[:4]:
                 if (m, sp, YMIN, YMAX, False) not in items:
                     items.append((m, sp, YMIN, YMAX, False))
-    ts = chk.run(task_month, items, 'date<->JDE per month')
+    ts = chk.run(task_month, items[:12], 'date<->JDE per month (month as number)')
+    ts += chk.run(task_month, items[12:], 'date<->JDE per month (month by name)')
     chk.run(task_spec, [0], 'specification lemmas')
     chk.add_tasks([anchors_and_names(chk)])
     cuts.discharge(chk, ts, tier)
